@@ -405,7 +405,7 @@ void ezc3d::c3d::analog(const std::vector<ezc3d::DataNS::Frame> &frames)
     if (frames[0].analogs().nbSubframes() != header().nbAnalogByFrame())
         throw std::invalid_argument("Size of the subframes in the frames must equal the number of subframes "
                                     "already present in the data set");
-    if (frames[0].analogs().subframe(0).nbChannels() == 0)
+    if (frames[0].analogs().nbSubframes() == 0 || frames[0].analogs().subframe(0).nbChannels() == 0)
         throw std::invalid_argument("Channels in the frame cannot be empty");
 
     // Validate all the new channels before modifying the data set, so a refused call leaves it untouched
